@@ -31,7 +31,7 @@ PROPERTIES = {
     "C03": {
         "harness_modules": ["contracts.assume"],
         "harness_filter": only("AtLeast.assume", "variable.assume", "variable.evaluate", "lemma.ival_wf", "lemma.total_const"),
-        "rt": ["rt.logic:c03_evaluate_glue"],
+        "rt": ["rt.logic:c03_evaluate_glue", "rt.logic:history_sequences"],
         "level": "other",
         "assumptions": S_ALL,
         "explanation": "deductive: assume/post.bounds (the bounds assume() returns are ival, for every child count and value form), "
@@ -61,6 +61,7 @@ PROPERTIES = {
         "harness_modules": ["contracts.assume", "contracts.flags"],
         "harness_filter": only("AtLeast.assume", "variable.assume", "variable.evaluate", "lemma.ival_wf", "lemma.sound",
                                "AtLeast.flags"),
+        "rt": ["rt.logic:c06_partial_soundness", "rt.logic:history_sequences"],
         "level": "proof",
         "assumptions": S_ALL,
         "explanation": "assume/post.bounds (the reported bounds are ival) + lemma.sound (ival contains the value under every "
@@ -69,6 +70,7 @@ PROPERTIES = {
     "C07": {
         "harness_modules": ["contracts.assume"],
         "harness_filter": only("AtLeast.assume", "variable.assume", "lemma.ival_wf", "lemma.refine"),
+        "rt": ["rt.logic:history_sequences"],
         "level": "proof",
         "assumptions": S_ALL,
         "explanation": "AtLeast.assume / variable.assume (real source) against post.c07: for every further interpretation e of "
@@ -76,6 +78,7 @@ PROPERTIES = {
     },
     "C08": {
         "harness_modules": ["contracts.reduce"],
+        "rt": ["rt.logic:c08_reduce_e2e", "rt.logic:history_sequences"],
         "level": "proof",
         "assumptions": S_ALL + ["lemma.refine (proved in contracts.assume) is used as a fact about compound children"],
         "explanation": "AtLeast.reduce (real source): post.bounds / post.meaning (ival(reduce(self), e) == ival(self, e) for every "
@@ -83,7 +86,7 @@ PROPERTIES = {
     },
     "C09": {
         "harness_modules": ["contracts.c09"],
-        "rt": ["rt.config:c09_purity", "rt.config:c09_configurator_cache"],
+        "rt": ["rt.config:c09_purity", "rt.config:c09_configurator_cache", "rt.logic:history_sequences"],
         "level": "other",
         "assumptions": S_ALL,
         "explanation": "deductive (input-free) frame obligations: every feasible path of negate / assume / variable.assume / "
